@@ -174,9 +174,34 @@ func crashFamily(e *env) error {
 
 var nasty = []string{"NaN", "Inf", "-Inf", "+Inf", "1e999", "-1e999", "1e-999", "0x1p-2", "0x", "1_000", "infinity", "nan", ".", "-", "+", "e", "1e", "--1", "1..2", "١٢", "1,5"}
 
+// food / category names of unusual shape: many path segments, empty segments, only separators, very long
+var pathNasty = []string{
+	"s1/s2/s3/s4/s5/s6/s7/s8/s9/s10/s11/s12/s13/s14/s15/s16/s17/s18/s19/s20/s21/s22/s23/s24/s25/s26/s27/s28/s29/s30",
+	"snack/fruit/", "drink//water", "/lead", "/", "a/", "//", "a/b/", "a/b//", "x/" + strings.Repeat("y/", 40) + "z", strings.Repeat("long", 80),
+}
+
 func mutate(e *env, s string) string {
 	b := []byte(s)
-	switch e.rng.Intn(12) {
+	switch e.rng.Intn(14) {
+	case 12, 13: // an entry (or a second one next to it) whose name has an unusual path shape
+		lines := strings.Split(s, "\n")
+		var idx []int
+		for i, l := range lines {
+			if strings.HasPrefix(l, "  ") {
+				idx = append(idx, i)
+			}
+		}
+		if len(idx) == 0 {
+			return s
+		}
+		i := idx[e.rng.Intn(len(idx))]
+		nl := "  " + pathNasty[e.rng.Intn(len(pathNasty))] + ": " + []string{"1", "-2", "0", "0.5"}[e.rng.Intn(4)]
+		if e.rng.Intn(2) == 0 {
+			lines[i] = nl
+		} else {
+			lines = append(lines[:i+1], append([]string{nl}, lines[i+1:]...)...)
+		}
+		return strings.Join(lines, "\n")
 	case 0: // truncate
 		if len(b) > 0 {
 			b = b[:e.rng.Intn(len(b))]
